@@ -191,6 +191,35 @@ func RunCommitSync(seed int64, idx int) *Result {
 		}
 		return false
 	}
+	// traffic: the scripted members' view-0 messages that make the node commit height h when its seed derives from sig
+	traffic := func(h uint64, sig []byte) []*interfaces.ConsensusRawMessage {
+		blk := &spi.Blk{H: h, Body: fmt.Sprintf("scripted-%d", h)}
+		hash := spi.HashOf(blk)
+		seedB := sim.SeedBytesOf(sig)
+		mk := func(env ref.Env, typ ref.MT, id string) *interfaces.ConsensusRawMessage {
+			hdr := &ref.Ref{Type: typ, Inst: inst, H: h, V: 0, Hash: hash}
+			sg := ref.Sig{Id: id, Sig: net.Keys.SignCM(id, h, hdr.Bytes())}
+			var share []byte
+			var b interfaces.Block
+			if env == ref.EnvC {
+				share = net.Keys.Share(id, h, seedB)
+			}
+			if env == ref.EnvPP {
+				b = blk
+			}
+			return ref.RawBlockRefMsg(env, hdr, sg, share, b)
+		}
+		out := []*interfaces.ConsensusRawMessage{mk(ref.EnvPP, ref.PP, leader)}
+		for _, id := range others {
+			if id != leader {
+				out = append(out, mk(ref.EnvP, ref.P, id))
+			}
+		}
+		for _, id := range others {
+			out = append(out, mk(ref.EnvC, ref.C, id))
+		}
+		return out
+	}
 	rounds := 5 + rng.Intn(6)
 	lastSync := int64(-1) // highest block height handed to UpdateState so far (the main loop ignores anything not above it)
 	extremeDone := false
@@ -268,6 +297,62 @@ func RunCommitSync(seed int64, idx int) *Result {
 				return finish()
 			}
 			prevSig = nil
+		case kind == 4 && rng.Intn(2) == 0:
+			// the worker is busy (commit callback of h0 parked); the complete traffic of height h0+2 is handed to the node and waits in
+			// the worker's queue; then a sync with block h0+1 passes the main loop. Whatever order the worker takes them in — messages
+			// first (future cache) or sync first (live) — the node must commit h0+2: nothing queued for the height a sync starts may be lost.
+			g.Close()
+			if !drive(h0, rng.Intn(3) == 0) {
+				if staleBefore {
+					net.violate("C14", "stale-sync-changed-the-outcome", "after UpdateState calls that were all below the height %d being decided, the scripted traffic of that height no longer makes the node commit", h0)
+				} else {
+					net.count("inconclusive: scripted commit did not happen")
+				}
+				return finish()
+			}
+			staleBefore = false
+			net.count("C14 scripted commits")
+			{
+				target := h0 + 1
+				net.SetSeed(nd.Id, target+1, nil, false)
+				for _, m := range traffic(target+1, nil) {
+					nd.ML.HandleConsensusMessage(nd.ctx, m)
+				}
+				nd.Barrier() // the main loop has forwarded all of them to the worker's queue
+				if !call(&spi.Blk{H: target, Body: "synced"}) {
+					return finish()
+				}
+				lastSync = int64(target)
+				nd.Barrier()
+				g.Open()
+				committed := false
+				for t0 := time.Now(); time.Since(t0) < 10*time.Second && !committed; {
+					committed = commitSeen(target+1) != nil
+					time.Sleep(200 * time.Microsecond)
+				}
+				if nd.Witness(32) < 32 {
+					net.count("inconclusive: worker iterations not witnessed")
+					return finish()
+				}
+				h1, v1 := nd.HV()
+				net.count("C14 batches judged")
+				net.count("C17 batches queued for the height a sync starts judged")
+				if !committed {
+					for _, p := range []string{"C17", "C14"} {
+						net.violate(p, "messages-queued-for-the-height-a-sync-starts-were-lost", "while the worker was inside the commit callback of height %d, the proposal, PREPAREs and COMMITs of height %d were handed to HandleConsensusMessage (they wait in the worker's queue), then UpdateState(block %d) returned nil; after the callback was released the node is at height %d view %d and never committed height %d — queued messages of the height the sync starts did not reach that height's term", h0, target+1, target, h1, v1, target+1)
+					}
+					return finish()
+				}
+				prevSig = nil
+				if e := commitSeen(target + 1); e != nil && len(e.Proof) > 0 {
+					prevSig = protocol.BlockProofReader(e.Proof).RandomSeedSignature()
+				}
+				net.SetSeed(nd.Id, target+2, prevSig, false)
+				if h1 != target+2 {
+					net.violate("C13", "commit-not-followed-by-the-next-round", "the node committed height %d (callback returned nil) and is at height %d after 32 witnessed worker iterations", target+1, h1)
+					return finish()
+				}
+			}
 		case kind < 6: // a consensus commit of the height being decided, syncs arriving while the commit callback runs
 			park := rng.Intn(4) > 0
 			if park {
